@@ -48,6 +48,15 @@ import (
 // observation `harness-only`; the resulting lock table is handed to the model by a `locks` line):
 // lock <owner> <denom> <amt> <dur>, unlock <owner> <lockId>;
 // xferowner <r> <newOwner>: real MsgTransferOwnership (on success the model gets a `rollapp` line).
+// forceowner <r> <newOwner>: FAULT INJECTION, harness-only: writes the owner straight into the real rollapp store
+// (RollappKeeper.SetRollapp), bypassing MsgTransferOwnership; the model gets the `rollapp` line.  Since fix F4
+// (64b101c36) the message refuses blocked addresses, so `forceowner r 102` produces a state OUTSIDE the reachable
+// ones; it is there to exercise the failing-recipient path of Distribute (epoch hooks rolled back as a whole).
+// Observation of `begin` / `end` with outcome ok: the state is followed by ` D=[a:c0,c1 …] H=[gid:c0,c1 …]`:
+// D = per account (actors, fresh addresses; module accounts excluded) the REAL balance delta over the op,
+// H = per gauge the REAL delta of DistributedCoins over the op; non-zero entries only, ascending.  The driver
+// prints there what the specification functions dueG / dueTotal (Lemmas/IncentDue: blockDue, blockHandout)
+// compute on the state before the op.
 // They are part of ops.txt, so a replay of ops.txt (C12's replicas) executes the real messages; the `locks`
 // line and the `rollapp` line that follow them in a file are derived again, never taken from the file.
 // Addresses: 0..na-1 actors, 100 streamer module, 101 incentives module, 102 lockup module (blocked),
@@ -248,7 +257,7 @@ type c15Trace struct {
 	epochBase   map[uint64]sdk.Coins
 	epochMax    map[uint64]sdk.Coins
 	epochExempt map[uint64]bool
-	retargeted  map[uint64]bool // streams whose records were replaced (outside the paging clause's quantifier)
+	retargeted  map[uint64]bool   // streams whose records were replaced (outside the paging clause's quantifier)
 	epochRecs   map[uint64]string // sponsored streams: the records seen last
 }
 
@@ -478,6 +487,15 @@ func (w *c15World) apply(fl []string, unlimited bool) (class string, err error) 
 		}
 		_, err := f.Deliver(&rollapptypes.MsgTransferOwnership{CurrentOwner: ra.Owner, NewOwner: newOwner, RollappId: ra.RollappId})
 		return c15Class(err), err
+	case "forceowner":
+		// fault injection (see the header): not a message of the chain
+		ra, ok := f.App.RollappKeeper.GetRollapp(f.Ctx, c15RollappID(int(n(1))))
+		if !ok {
+			return "err", fmt.Errorf("no rollapp")
+		}
+		ra.Owner = c15Addr(int(n(2))).String()
+		f.App.RollappKeeper.SetRollapp(f.Ctx, ra)
+		return "ok", nil
 	case "rollapp":
 		f.App.RollappKeeper.SetRollapp(f.Ctx, rollapptypes.Rollapp{RollappId: c15RollappID(int(n(1))), Owner: c15Addr(int(n(2))).String(), Launched: fl[3] == "1"})
 		return "ok", nil
@@ -627,19 +645,23 @@ func (t *c15Trace) finish() {
 
 // snapshot of what the monitors compare across an op
 type c15Snap struct {
-	bal      map[int]sdk.Coins
-	epochNo  map[string]int64
-	active   map[uint64]bool
-	upcoming map[uint64]bool
-	ptrs     map[string]string
-	gActive  map[uint64]bool // gauges in the incentives module's active list
+	bal       map[int]sdk.Coins
+	epochNo   map[string]int64
+	active    map[uint64]bool
+	upcoming  map[uint64]bool
+	ptrs      map[string]string
+	gActive   map[uint64]bool // gauges in the incentives module's active list
+	gUpcoming map[uint64]bool // ... upcoming list
 }
 
 func (w *c15World) snap() c15Snap {
 	f := w.f
-	s := c15Snap{bal: map[int]sdk.Coins{}, epochNo: map[string]int64{}, active: map[uint64]bool{}, upcoming: map[uint64]bool{}, ptrs: map[string]string{}, gActive: map[uint64]bool{}}
+	s := c15Snap{bal: map[int]sdk.Coins{}, epochNo: map[string]int64{}, active: map[uint64]bool{}, upcoming: map[uint64]bool{}, ptrs: map[string]string{}, gActive: map[uint64]bool{}, gUpcoming: map[uint64]bool{}}
 	for _, g := range f.App.IncentivesKeeper.GetActiveGauges(f.Ctx) {
 		s.gActive[g.Id] = true
+	}
+	for _, g := range f.App.IncentivesKeeper.GetUpcomingGauges(f.Ctx) {
+		s.gUpcoming[g.Id] = true
 	}
 	for _, a := range append([]int{0, 1, 2, 3, 4, 5, 100, 101, 102}, w.fresh...) {
 		s.bal[a] = c15Only(f.App.BankKeeper.GetAllBalances(f.Ctx, c15Addr(a)))
@@ -681,9 +703,9 @@ func (t *c15Trace) exec(line string) bool {
 		return true // the `rollapp` line a successful xferowner just before it has already produced
 	}
 	t.skipLine = ""
-	harnessOnly := fl[0] == "lock" || fl[0] == "unlock" || fl[0] == "xferowner" || fl[0] == "delegate" || fl[0] == "vote" || fl[0] == "revoke"
+	harnessOnly := fl[0] == "lock" || fl[0] == "unlock" || fl[0] == "xferowner" || fl[0] == "forceowner" || fl[0] == "delegate" || fl[0] == "vote" || fl[0] == "revoke"
 	t.lines = append(t.lines, line)
-	if (fl[0] == "rollapp" || fl[0] == "xferowner") && len(fl) > 2 {
+	if (fl[0] == "rollapp" || fl[0] == "xferowner" || fl[0] == "forceowner") && len(fl) > 2 {
 		if a, err := strconv.Atoi(fl[2]); err == nil {
 			t.w.addFresh(a)
 			t.sh.addFresh(a)
@@ -714,6 +736,10 @@ func (t *c15Trace) exec(line string) bool {
 		t.shadowOK = false // the property quantifies over limits from 1 up; 0 only exercises the model
 		r.Hit("shadow/stopped-at-limit-0")
 	}
+	if fl[0] == "forceowner" && t.shadowOK {
+		t.shadowOK = false // fault injection: outside the reachable states the paging clause quantifies over
+		r.Hit("shadow/stopped-at-fault-injection")
+	}
 	if t.shadowOK {
 		c2, _ := t.sh.apply(fl, true)
 		if c2 != class {
@@ -731,6 +757,8 @@ func (t *c15Trace) exec(line string) bool {
 		r.Emit(line, "harness-only")
 	case strings.HasPrefix(class, "halt"):
 		r.Emit(line, class)
+	case class == "ok" && (fl[0] == "begin" || fl[0] == "end"):
+		r.Emit(line, class+" | "+t.w.obs()+t.dueFields(fl[0], pre, preGauges))
 	default:
 		r.Emit(line, class+" | "+t.w.obs())
 	}
@@ -738,8 +766,9 @@ func (t *c15Trace) exec(line string) bool {
 		t.onHalt(fl[0], class, err)
 		return false
 	}
-	if fl[0] == "xferowner" && class == "ok" {
-		// the transfer went through on the real rollapp module: tell the model the new owner
+	if (fl[0] == "xferowner" || fl[0] == "forceowner") && class == "ok" {
+		// the transfer went through on the real rollapp module (forceowner: was written into its store): tell
+		// the model the new owner
 		ra, _ := t.w.f.App.RollappKeeper.GetRollapp(t.w.f.Ctx, c15RollappID(func() int { v, _ := strconv.Atoi(fl[1]); return v }()))
 		rl := fmt.Sprintf("rollapp %s %s %s", fl[1], fl[2], c15b(ra.Launched))
 		t.lines = append(t.lines, rl)
@@ -751,6 +780,9 @@ func (t *c15Trace) exec(line string) bool {
 		if fl[2] == "102" {
 			t.blockedOwner = true
 			r.Hit("rollapp-owner-blocked")
+			if fl[0] == "forceowner" {
+				r.Hit("rollapp-owner-blocked/injected")
+			}
 		}
 	}
 	// hand the (possibly changed) lock table to the model
@@ -1094,6 +1126,9 @@ func (t *c15Trace) monitors(fl []string, class string, pre c15Snap, preLocks []l
 	}
 
 	if op == "begin" || op == "end" {
+		if op == "begin" && class == "ok" {
+			t.failingRecipient(pre, post, preLocks, preRollapps, preGauges)
+		}
 		t.proportional(op, pre, post, preLocks, preRollapps, preGauges)
 	}
 
@@ -1163,6 +1198,255 @@ func (t *c15Trace) monitors(fl []string, class string, pre c15Snap, preLocks []l
 		}
 	}
 	_ = class
+}
+
+// dueFields renders the two extra observation fields of an accepted `begin` / `end` from the REAL chain:
+// ` D=[a:c0,c1 …] H=[gid:c0,c1 …]`, D = balance delta over the op of every non-module account (actors and
+// fresh addresses, ascending, non-zero only; a debited account is reported by recipients_legit and not printed),
+// H = delta of every gauge's DistributedCoins (ascending gauge id, non-zero only).  The model side prints what
+// the specification functions dueG / dueTotal say (blockDue / blockHandout on the state before the op), so the
+// correspondence diff compares the specification with the real payouts line by line.
+// Model independent consistency: everything a gauge hands out reaches a non-module account and nothing else is
+// credited, i.e. per denom the D entries add up to the H entries.
+func (t *c15Trace) dueFields(op string, pre c15Snap, preGauges []inctypes.Gauge) string {
+	r, f := t.r, t.w.f
+	dp, hp := []string{}, []string{}
+	sumD, sumH := sdk.NewCoins(), sdk.NewCoins()
+	comparable := true
+	for _, a := range t.w.accts() {
+		now := c15Only(f.App.BankKeeper.GetAllBalances(f.Ctx, c15Addr(a)))
+		if !now.IsAllGTE(pre.bal[a]) {
+			comparable = false // C15/recipients_legit/account-debited-by-block
+			continue
+		}
+		if d := now.Sub(pre.bal[a]...); !d.Empty() {
+			dp = append(dp, fmt.Sprintf("%d:%s", a, c15ShowCoins(d)))
+			sumD = sumD.Add(d...)
+		}
+	}
+	before := map[uint64]sdk.Coins{}
+	beforeCoins := map[uint64]sdk.Coins{}
+	for _, g := range preGauges {
+		before[g.Id] = g.DistributedCoins
+		beforeCoins[g.Id] = g.Coins
+	}
+	gs := f.App.IncentivesKeeper.GetGauges(f.Ctx)
+	sort.Slice(gs, func(i, j int) bool { return gs[i].Id < gs[j].Id })
+	// "what a stream hands to its gauges": every coin the streamer account moves to the incentives account in a
+	// block is handed to some gauge, i.e. must show up in that gauge's Coins.  (Model-independent: balances and
+	// stored gauges only.)  x/incentives Distribute persists a gauge handed in by the streamer only through
+	// updateGaugePostDistribute, i.e. only when the gauge distributes something in the same call: a gauge with no
+	// qualifying lock (or an unlaunched rollapp) keeps its old Coins although the stream's share has been moved and
+	// the stream's DistributedCoins have grown — the share is stranded in the incentives account.
+	if moved := c15Only(pre.bal[100]); moved.IsAllGTE(c15Only(f.App.BankKeeper.GetAllBalances(f.Ctx, c15Addr(100)))) {
+		moved = moved.Sub(c15Only(f.App.BankKeeper.GetAllBalances(f.Ctx, c15Addr(100)))...)
+		credited := sdk.NewCoins()
+		okc := true
+		for _, g := range gs {
+			if !g.Coins.IsAllGTE(beforeCoins[g.Id]) {
+				okc = false
+				break
+			}
+			credited = credited.Add(c15Only(g.Coins.Sub(beforeCoins[g.Id]...))...)
+		}
+		if okc && !moved.Empty() {
+			r.Hit("stream-share/moved")
+			if !moved.Equal(credited) {
+				r.Hit("stream-share/moved-but-gauge-not-credited")
+				r.Violate("C15/stream_hands_to_gauges/share-moved-gauge-not-credited", fmt.Sprintf("over `%s` the streamer account moved %s to the incentives account (the streams' DistributedCoins grew accordingly) but the gauges' Coins grew by %s only: a gauge that distributes nothing in the same Distribute call (no qualifying lock / unlaunched rollapp) is not written back, its share is stranded in the incentives module account",
+					op, c15ShowCoins(moved), c15ShowCoins(credited)), t.replay()...)
+			}
+		}
+	}
+	for _, g := range gs {
+		if !g.DistributedCoins.IsAllGTE(before[g.Id]) {
+			comparable = false
+			continue
+		}
+		if d := c15Only(g.DistributedCoins.Sub(before[g.Id]...)); !d.Empty() {
+			hp = append(hp, fmt.Sprintf("%d:%s", g.Id, c15ShowCoins(d)))
+			sumH = sumH.Add(d...)
+		}
+	}
+	if comparable && !sumD.Equal(sumH) {
+		r.Violate("C15/proportional/handout-sum-differs-from-credited-sum", fmt.Sprintf("over `%s` the gauges' distributed coins grew by %s in total, the non-module accounts were credited %s in total",
+			op, c15ShowCoins(sumH), c15ShowCoins(sumD)), t.replay()...)
+	}
+	if len(dp) > 0 {
+		r.Hit("due/compared")
+		if op == "begin" {
+			r.Hit("due/compared-epoch-hook")
+		} else {
+			r.Hit("due/compared-endblock")
+		}
+		if len(dp) > 1 {
+			r.Hit("due/compared/several-accounts")
+		}
+	}
+	return fmt.Sprintf(" D=[%s] H=[%s]", strings.Join(dp, " "), strings.Join(hp, " "))
+}
+
+// failingRecipient: branch bookkeeping (Hits only, no signature) for an epoch hook that fails as a whole because
+// ONE recipient cannot be paid.  Distribute has no per-recipient isolation: a recipient the bank refuses (a blocked
+// module account; after fix F4 only reachable by the `forceowner` fault injection) fails the whole call; inside
+// the osmosis x/epochs wrapper the hook's error is discarded and its cache context dropped, so the chain goes on
+// but NO recipient of that hook is paid in this epoch, the good ones included.  Only real keeper state is read.
+func (t *c15Trace) failingRecipient(pre, post c15Snap, preLocks []lockuptypes.PeriodLock, preRollapps []rollapptypes.Rollapp, preGauges []inctypes.Gauge) {
+	r, f := t.r, t.w.f
+	type ownerT struct {
+		launched, blocked bool
+		actor             int // -1: not an account the harness tracks
+	}
+	ownerOf := func(g inctypes.Gauge) (o ownerT, ok bool) {
+		for _, x := range preRollapps {
+			if g.GetRollapp() != nil && x.RollappId == g.GetRollapp().RollappId {
+				o = ownerT{launched: x.Launched, actor: -1}
+				addr, err := sdk.AccAddressFromBech32(x.Owner)
+				o.blocked = err == nil && f.App.BankKeeper.BlockedAddr(addr)
+				for _, a := range t.w.accts() {
+					if Actor(a).String() == x.Owner {
+						o.actor = a
+					}
+				}
+				return o, true
+			}
+		}
+		return o, false
+	}
+	remaining := func(g inctypes.Gauge) sdk.Coins {
+		if !g.DistributedCoins.IsAllLTE(g.Coins) {
+			return sdk.NewCoins()
+		}
+		return g.Coins.Sub(g.DistributedCoins...)
+	}
+	blockedGauge := map[uint64]bool{} // rollapp gauges that would pay a blocked address
+	for _, g := range preGauges {
+		if o, ok := ownerOf(g); ok && o.launched && o.blocked && !remaining(g).Empty() {
+			blockedGauge[g.Id] = true
+		}
+	}
+	anyBlocked := false
+	for _, g := range preGauges {
+		anyBlocked = anyBlocked || t.feedsBlocked(g.Id, preRollapps, preGauges)
+	}
+	if !anyBlocked {
+		return
+	}
+	now := map[uint64]inctypes.Gauge{}
+	for _, g := range f.App.IncentivesKeeper.GetGauges(f.Ctx) {
+		now[g.Id] = g
+	}
+	untouched := func(g inctypes.Gauge) bool {
+		return now[g.Id].DistributedCoins.Equal(g.DistributedCoins) && now[g.Id].FilledEpochs == g.FilledEpochs
+	}
+
+	// (1) x/incentives AfterEpochEnd of the distribution epoch: every active gauge (and every upcoming one that is
+	// due) is distributed in ONE call
+	id := f.App.IncentivesKeeper.GetParams(f.Ctx).DistrEpochIdentifier
+	if pre.epochNo[id] >= 1 && post.epochNo[id] == pre.epochNo[id]+1 {
+		upcoming := map[uint64]bool{}
+		for _, g := range preGauges {
+			upcoming[g.Id] = pre.gUpcoming[g.Id] && !f.Ctx.BlockTime().Before(g.StartTime) // activated by the hook first
+		}
+		inCall := func(g inctypes.Gauge) bool { return pre.gActive[g.Id] || upcoming[g.Id] }
+		fails := false
+		for _, g := range preGauges {
+			fails = fails || (blockedGauge[g.Id] && inCall(g))
+		}
+		if fails {
+			r.Hit("epoch-hook/failing-recipient")
+			starved := map[string]bool{}
+			defer func() {
+				for k := range starved {
+					r.Hit("epoch-hook/failing-recipient/good-recipient-starved" + k)
+				}
+			}()
+			for _, g := range preGauges {
+				if blockedGauge[g.Id] || !inCall(g) || remaining(g).Empty() || !untouched(g) {
+					continue
+				}
+				if o, ok := ownerOf(g); ok {
+					// a rollapp gauge of a good owner, due its whole remainder
+					if o.launched && !o.blocked && o.actor >= 0 && post.bal[o.actor].Equal(pre.bal[o.actor]) {
+						starved[""], starved["/rollapp-owner"] = true, true
+					}
+					continue
+				}
+				// an asset gauge: some qualifying lock is due a positive amount (the code's own formula)
+				a := g.GetAsset()
+				e := uint64(1)
+				if a == nil || (!g.IsPerpetual && g.NumEpochsPaidOver <= g.FilledEpochs) {
+					continue
+				}
+				if !g.IsPerpetual {
+					e = g.NumEpochsPaidOver - g.FilledEpochs
+				}
+				sum := math.ZeroInt()
+				for _, l := range preLocks {
+					if amt := l.Coins.AmountOf(a.Denom); amt.IsPositive() && l.Duration >= a.Duration {
+						sum = sum.Add(amt)
+					}
+				}
+				for _, l := range preLocks {
+					amt := l.Coins.AmountOf(a.Denom)
+					if !amt.IsPositive() || l.Duration < a.Duration {
+						continue
+					}
+					for _, c := range remaining(g) {
+						if !c.Amount.Mul(amt).Quo(sum.Mul(math.NewIntFromUint64(e))).IsPositive() {
+							continue
+						}
+						for _, ac := range t.w.accts() {
+							if Actor(ac).String() == l.Owner && post.bal[ac].Equal(pre.bal[ac]) {
+								starved[""], starved["/lock-owner"] = true, true
+							}
+						}
+					}
+				}
+			}
+		}
+	}
+
+	// (2) x/streamer AfterEpochEnd flush (Distribute with epochEnd = true over what the paged EndBlocks left): on
+	// success the epoch's pointer is reset to the first gauge; a pointer that is NOT there after the epoch ended
+	// with an active stream of that epoch means the hook was rolled back
+	for _, eid := range c15Epochs {
+		if pre.epochNo[eid] < 1 || post.epochNo[eid] != pre.epochNo[eid]+1 || post.ptrs[eid] == "0/0" {
+			continue
+		}
+		feeds := false
+		for _, s := range f.App.StreamerKeeper.GetStreams(f.Ctx) {
+			if s.DistrEpochIdentifier != eid || !pre.active[s.Id] {
+				continue
+			}
+			for _, rec := range s.DistributeTo.Records {
+				feeds = feeds || t.feedsBlocked(rec.GaugeId, preRollapps, preGauges)
+			}
+		}
+		if feeds {
+			r.Hit("epoch-hook/failing-recipient/streamer-flush")
+			if post.ptrs[eid] == pre.ptrs[eid] {
+				r.Hit("epoch-hook/failing-recipient/streamer-flush/pointer-kept")
+			}
+		}
+	}
+}
+
+// feedsBlocked: gauge id is a rollapp gauge of a launched rollapp whose owner is a blocked address (whatever the
+// gauge holds: a stream's share arrives in the same call)
+func (t *c15Trace) feedsBlocked(id uint64, preRollapps []rollapptypes.Rollapp, preGauges []inctypes.Gauge) bool {
+	for _, g := range preGauges {
+		if g.Id != id || g.GetRollapp() == nil {
+			continue
+		}
+		for _, x := range preRollapps {
+			if x.RollappId == g.GetRollapp().RollappId && x.Launched {
+				addr, err := sdk.AccAddressFromBech32(x.Owner)
+				return err == nil && t.w.f.App.BankKeeper.BlockedAddr(addr)
+			}
+		}
+	}
+	return false
 }
 
 // proportional: "rewards reach the owners of qualifying locks in proportion to their locked amounts".
@@ -1544,6 +1828,61 @@ func (x *c15Gen) freshOwners(grow int) bool {
 	ok := x.do(fmt.Sprintf("mkstream %s %s %d %d %d", coins, strings.Join(parts, ","), x.now(), []int{1, 1, 1, 0, 2}[g.Intn(5)], 1+g.Intn(3)))
 	x.sync()
 	return ok
+}
+
+// blockedEpisode: FAULT INJECTION between two blocks (outside the reachable states since fix F4, see `forceowner`).
+// A rollapp with a gauge is handed to the blocked lockup module account, that gauge and one more are topped up
+// directly, one block begins (mostly across the week boundary: the incentives epoch hook — and any streamer flush
+// that reaches the gauge — fails as a whole and is rolled back), and the owner is repaired BEFORE the block's
+// EndBlock, which a blocked recipient would fail (the fixed finding F4, not wanted again).
+func (x *c15Gen) blockedEpisode() bool {
+	g, f := x.g, x.t.w.f
+	x.sync()
+	if len(x.rgauges) == 0 {
+		return true
+	}
+	gid := x.rgauges[g.Intn(len(x.rgauges))]
+	gauge, err := f.App.IncentivesKeeper.GetGaugeByID(f.Ctx, uint64(gid))
+	if err != nil || gauge.GetRollapp() == nil {
+		return true
+	}
+	ra, ok := f.App.RollappKeeper.GetRollapp(f.Ctx, gauge.GetRollapp().RollappId)
+	rr, owner := -1, -1
+	for i := 0; i < x.nRoll; i++ {
+		if c15RollappID(i) == gauge.GetRollapp().RollappId {
+			rr = i
+		}
+	}
+	for _, a := range x.t.w.accts() {
+		if ok && Actor(a).String() == ra.Owner {
+			owner = a
+		}
+	}
+	if rr < 0 || owner < 0 {
+		return true
+	}
+	x.t.r.Hit("perturb/forceowner-blocked")
+	funder := g.Intn(c15NA)
+	other := 1 + g.Intn(x.nGauges)
+	dt := 7*86400 + 1
+	if g.Chance(30) {
+		dt = x.dt()
+	}
+	for _, l := range []string{
+		fmt.Sprintf("fund %d 100000000,100000000", funder),
+		fmt.Sprintf("addgauge %d %d %d,%d", funder, gid, 1+g.Intn(100000), g.Intn(2)*g.Intn(1000)),
+		fmt.Sprintf("addgauge %d %d %d,0", funder, other, 1+g.Intn(100000)),
+		fmt.Sprintf("forceowner %d 102", rr),
+		fmt.Sprintf("begin %d", dt),
+		fmt.Sprintf("rollapp %d %d %s", rr, owner, c15b(ra.Launched)),
+		"end",
+	} {
+		if !x.do(l) {
+			return false
+		}
+	}
+	x.sync()
+	return true
 }
 
 func (x *c15Gen) amount() string {
@@ -2069,6 +2408,16 @@ func c15RandomTrace(r *Run, g *Rng) {
 			return
 		}
 	}
+	// sometimes, at the END of the trace (the shadow comparison stops at a fault injection): a failing recipient
+	// in the epoch hooks, then two more blocks with the owner repaired
+	if g.Chance(30) {
+		if !x.blockedEpisode() || !x.do(fmt.Sprintf("begin %d", []int{3601, 7*86400 + 1}[g.Intn(2)])) || !x.do("end") {
+			return
+		}
+		if x.do(fmt.Sprintf("begin %d", x.dt())) {
+			x.do("end")
+		}
+	}
 }
 
 // ---------------------------------------------------------------------------------------------
@@ -2253,6 +2602,64 @@ var c15Witnesses = map[string][]string{
 		"fund 100 9000,50", "mkstream 5000,50 1:1,2:2,5:3 NOW 1 2", "mkstream 4000,0 - NOW 1 2 s",
 		"begin 3601", "end", "begin 3601", "end", "begin 3601", "end", "begin 604801", "end",
 	},
+	// a stream feeds asset gauge 1 (a lock qualifies from the start) and asset gauge 2 (other denom: nobody has a
+	// qualifying lock yet); a lock for gauge 2 arrives in the middle of the epoch.  Limit 500: the first EndBlock of
+	// the epoch serves both gauges — gauge 2 distributes nothing in that call, so it is not written back: its share
+	// (2000) is stranded in the incentives account and actor 2 never gets anything although the stream's
+	// DistributedCoins say 4000.  Limit 1 (next witness): gauge 2 is served one block later, after the lock: it is
+	// credited and pays actor 2.  So what the gauges receive from the stream depends on the iteration limit.
+	"stream-share-stranded": {
+		"begin 1", "end",
+		"mkgauge 0 1 0 3600 0,0 NOW 1", "mkgauge 0 1 1 3600 0,0 NOW 1",
+		"lock 1 0 100 3600",
+		"fund 100 4000,0", "mkstream 4000,0 1:1,2:1 NOW 1 2",
+		"begin 3601", "end", "begin 3601", "end", "lock 2 1 50 3600", "begin 10", "end", "begin 10", "end", "begin 3601", "end", "begin 3601", "end",
+	},
+	"stream-share-stranded-limit-1": {
+		"maxiter 1",
+		"begin 1", "end",
+		"mkgauge 0 1 0 3600 0,0 NOW 1", "mkgauge 0 1 1 3600 0,0 NOW 1",
+		"lock 1 0 100 3600",
+		"fund 100 4000,0", "mkstream 4000,0 1:1,2:1 NOW 1 2",
+		"begin 3601", "end", "begin 3601", "end", "lock 2 1 50 3600", "begin 10", "end", "begin 10", "end", "begin 3601", "end", "begin 3601", "end",
+	},
+	// FAULT INJECTION (forceowner: outside the reachable states since fix F4): a failing recipient in the EPOCH-HOOK
+	// path.  Rollapp gauge 1 (owner forced to the blocked lockup module account), rollapp gauge 2 (good owner 3) and
+	// the non-perpetual asset gauge 3 (locks of actors 1 and 4) are funded directly, no stream feeds them (the
+	// streamer EndBlock never touches them), and all are due in the same x/incentives AfterEpochEnd (week).  The
+	// payout to the blocked address fails the whole Distribute call; the epochs wrapper discards the hook's error
+	// and its writes: the block goes on, NOBODY is paid, no gauge moves (not even upcoming -> active), twice; once
+	// the owner is repaired the next week pays everybody.
+	"epoch-hook-failing-recipient": {
+		"begin 1", "end", "fund 0 1000000,1000000",
+		"rollapp 0 2 1", "rgauge 0", "rollapp 1 3 1", "rgauge 1",
+		"mkgauge 0 0 0 3600 7000,30 NOW 2",
+		"lock 1 0 100 3600", "lock 4 0 300 25200",
+		"addgauge 0 1 500,0", "addgauge 0 2 900,7",
+		"forceowner 0 102",
+		"begin 604801", "end", "begin 10", "end",
+		"addgauge 0 2 100,0",
+		"begin 604801", "end",
+		"rollapp 0 2 1",
+		"begin 604801", "end", "begin 604801", "end",
+	},
+	// the same through the streamer's AfterEpochEnd flush: limit 1, one hour stream over the rollapp gauges 1, 2, 3;
+	// the EndBlock of the epoch's first block serves gauge 1 only; then gauge 2's owner is forced to the blocked
+	// address and the hour ends: the flush (Distribute with epochEnd = true over gauges 2 and 3) fails and is rolled
+	// back as a whole (pointer kept, epoch not counted, good owner 4 of gauge 3 unpaid).  The owner is repaired
+	// BEFORE the block's EndBlock runs (which would otherwise fail the block, the fixed finding F4).
+	"epoch-hook-failing-recipient-streamer-flush": {
+		"maxiter 1",
+		"begin 1", "end",
+		"rollapp 0 2 1", "rgauge 0", "rollapp 1 3 1", "rgauge 1", "rollapp 2 4 1", "rgauge 2",
+		"fund 100 9000,0",
+		"mkstream 9000,0 1:1,2:1,3:1 NOW 1 3",
+		"begin 3601", "end", "begin 3601", "end",
+		"forceowner 1 102",
+		"begin 3601",
+		"rollapp 1 3 1",
+		"end", "begin 10", "end", "begin 10", "end", "begin 3601", "end", "begin 3601", "end",
+	},
 	// a stream that becomes active at another identifier's epoch start is served in its first (partial)
 	// epoch only if the pointer of its own epoch has not yet reached the end
 	"stream-activated-mid-epoch": {
@@ -2285,7 +2692,9 @@ func init() {
 		return out
 	}
 	mk := func(n int) []string {
-		return rep(n, func(r int) []string { return []string{fmt.Sprintf("rollapp %d %d 1", r, r%c15NA), fmt.Sprintf("rgauge %d", r)} })
+		return rep(n, func(r int) []string {
+			return []string{fmt.Sprintf("rollapp %d %d 1", r, r%c15NA), fmt.Sprintf("rgauge %d", r)}
+		})
 	}
 	xfer := func(n, base int) []string {
 		return rep(n, func(r int) []string { return []string{fmt.Sprintf("xferowner %d %d", r, base+r)} })
